@@ -68,6 +68,16 @@ fn spec(s: &str) -> Result<Vec<u8>, Option<char>> {
 fn oracle_one(ctx: &mut Ctx, s: &str) {
     ctx.oracle_runs += 1;
     let got = catch(|| NormalizedString::new(s));
+    // all constructors and conversions agree with `new` (same verdict, text, error and payload)
+    let base = exec_str(1, s, "");
+    for op in 3..=6u32 {
+        let other = exec_str(op, s, "");
+        if other != base {
+            ctx.fail("constructors_agree", format!("{{\"what\":\"{} differs from new\",\"scalars\":\"{}\",\"string\":{},\"new\":{},\"other\":{}}}",
+                ["from_str", "from_string", "TryFrom<&str>", "TryFrom<String>"][(op - 3) as usize], hex(&scalars(s)), jstr(s),
+                jstr(&format!("{:?}", base.iter().map(|x| hex(x)).collect::<Vec<_>>())), jstr(&format!("{:?}", other.iter().map(|x| hex(x)).collect::<Vec<_>>()))));
+        }
+    }
     let bad = |ctx: &mut Ctx, what: &str| ctx.fail("accept_rule", format!("{{\"what\":\"{}\",\"scalars\":\"{}\",\"string\":{}}}", what, hex(&scalars(s)), jstr(s)));
     match (got, spec(s)) {
         (None, _) => ctx.fail("panic", format!("{{\"scalars\":\"{}\",\"string\":{}}}", hex(&scalars(s)), jstr(s))),
@@ -107,6 +117,17 @@ pub fn run(ctx: &mut Ctx) {
         let mut s = String::new();
         while s.len() < target { let cls = rng.below(5); let c = rand_char(&mut rng, cls); if s.len() + c.len_utf8() <= target || rng.chance(1, 6) { s.push(c); } }
         emit(ctx, 1, &format!("multibyte:{}bytes", s.len().min(18)), &s, "");
+        let op = [3u32, 4, 5, 6][s.len() % 4];
+        emit(ctx, op, "multibyte:other-constructor", &s, "");
+    }
+    // characters whose Unicode case mappings are ASCII or change the byte length (sharp s, dotless i,
+    // long s, Kelvin sign, ligatures, dotted capital I), alone and inside 15..17-byte strings
+    for c in ['\u{df}', '\u{131}', '\u{17f}', '\u{212a}', '\u{fb00}', '\u{fb01}', '\u{fb02}', '\u{fb03}', '\u{fb04}', '\u{fb05}', '\u{fb06}', '\u{130}', '\u{e9}', '\u{ff}', '\u{1e9e}', '\u{149}', '\u{1f0}', '\u{390}'] {
+        for op in [1u32, 3, 4, 5, 6] {
+            emit(ctx, op, "case-mapping special", &c.to_string(), "");
+            for pre in [13usize, 14, 15] { let s = format!("{}{}", &"sixteenbyteslong"[..pre], c); emit(ctx, op, "case-mapping special", &s, ""); }
+            let s = format!("{}ixteenbyteslong", c); emit(ctx, op, "case-mapping special", &s, "");
+        }
     }
     // random strings, mostly valid
     let n_rand = if ctx.quick() { 400 } else { 4000 };
